@@ -32,5 +32,8 @@ Case == [pay |-> pay, del |-> del, q |-> q, pos |-> pos, one |-> <<pay>>, split 
 Emit == done => PrintT(<<"REPLAY", ToJson(Case)>>)
 PaysQ == { <<"|">>, <<"&">>, <<";","x">>, <<"#","c">>, <<"a",">","b">>, <<"<","f">>, <<"2",">","&","1">>, <<">">>, <<"a"," ","b">>,
            <<">","f","9">>, <<"|","v","m","k"," ","9"," ","0">>, <<";","v","m","k"," ","9"," ","0">>, <<"&","&","v","m","k"," ","9"," ","0">>,
-           <<"x",";">>, <<"a","|","b">>, <<"2",">","f","9">>, <<"&",">","f","9">>, <<"<">>, <<"<","<","<">> }
+           <<"x",";">>, <<"a","|","b">>, <<"2",">","f","9">>, <<"&",">","f","9">>, <<"<">>, <<"<","<","<">>,
+           \* produced text that looks like another expansion: it is data too (no command runs, no list is made of it)
+           <<"$","(","v","m","k"," ","9"," ","0",")">>, <<"`","v","m","k"," ","9"," ","0","`">>, <<"x","$","(","v","m","k"," ","9"," ","0",")","y">>,
+           <<"{","a",",","b","}">>, <<"x","{","1",".",".","3","}">> }
 =============================================================================
